@@ -79,6 +79,7 @@ def run_case(data):
     raised_before = False
     nontrivial = False
     pending_size_change = False
+    last_ok_push = None
     ncalls = ch.int(4, 30)
 
     def check_ok(o, hdrs, what):
@@ -129,7 +130,17 @@ def run_case(data):
                 r.excluded['second-table-size-change-before-next-block'] += 1
                 continue
             pending_size_change = True
-            o = s.feed(wire.settings([(wire.S_HEADER_TABLE_SIZE, v)]))
+            # alone, or in one SETTINGS frame with other settings on either side of it
+            pairs = [(wire.S_HEADER_TABLE_SIZE, v)]
+            others = [(wire.S_INITIAL_WINDOW_SIZE, ch.pick([65535, 70000, 100000])), (wire.S_MAX_FRAME_SIZE, 16384),
+                      (wire.S_MAX_CONCURRENT_STREAMS, 100), (wire.S_MAX_HEADER_LIST_SIZE, 65536), (0x4d, 7)]
+            for _ in range(ch.pick([0, 0, 1, 2])):
+                extra = ch.pick(others)
+                if extra[0] not in [p_[0] for p_ in pairs]:
+                    pairs.insert(ch.int(0, len(pairs)), extra)
+            if len(pairs) > 1:
+                r.labels.add('table-size-with-other-settings')
+            o = s.feed(wire.settings(pairs))
             s.note_peer_settings([(wire.S_HEADER_TABLE_SIZE, v)])
             r.step('peer HEADER_TABLE_SIZE', v, o.brief())
             continue
@@ -182,8 +193,15 @@ def run_case(data):
                             r.violate('C13:valid-block-refused-after-refused-call:%s:%s' % (how, o.exc_name),
                                       repr(o.exc))
             else:
-                o = s.call('send_headers', sid, hs)
-                r.step('send_headers', sid, hs, o.brief())
+                kw = {}
+                if ch.chance(20):
+                    # a block that needs CONTINUATION frames, with priority fields in its first frame (client)
+                    hs = hs + [(b'x-big', b'B' * ch.pick([16380, 17000, 33000]))]
+                    if client:
+                        kw = {'priority_weight': ch.int(1, 256)}
+                    r.labels.add('multi-frame-block')
+                o = s.call('send_headers', sid, hs, **kw)
+                r.step('send_headers', sid, hs, kw, o.brief())
                 if o.ok:
                     check_ok(o, hs, 'open')
                     live.append(sid)
@@ -227,13 +245,25 @@ def run_case(data):
             next_local += 2
             hs = req(ch, b'/pushed%d' % ch.int(0, 3))
             how = 'ok'
-            if op == 'push-bad':
+            if op == 'push-ok' and ch.chance(24):
+                hs = hs + [(b'x-big', b'B' * ch.pick([16380, 17000, 33000]))]   # promised id + CONTINUATION frames
+                r.labels.add('multi-frame-block')
+            if op == 'push-bad' and ch.chance(80):
+                # a valid list with fresh fields, refused because of the promised id (used already, or odd)
+                hs = hs + [(b'x-new-%d' % ch.int(0, 9), b'value-of-a-push-refused-for-its-id-%d' % ch.int(0, 99))]
+                how = 'promised-id'
+                next_local -= 2
+                pid = ch.pick([next_local + 1, parent] + ([last_ok_push, last_ok_push] if last_ok_push else []))
+            elif op == 'push-bad':
                 hs, how = break_list(ch, hs, 'request')
             o = s.call('push_stream', parent, pid, hs)
             r.step('push_stream(%s)' % how, parent, pid, hs, o.brief())
-            if o.ok:
+            if o.ok and how in ('unencodable', 'promised-id'):
+                r.violate('C13:invalid-push-accepted:%s' % how, repr(o.frames)[:200])
+            elif o.ok:
                 check_ok(o, hs, 'push')
                 live.append(pid)
+                last_ok_push = pid
             else:
                 check_raise(o, 'push:' + how)
                 if op == 'push-bad':
